@@ -179,7 +179,7 @@ def c01_vacuum(ctx, n):
 
 def _cfg_vfire(tier):
     out = []
-    K = 12 if tier == 'quick' else 40
+    K = 12 if tier == 'quick' else 24
     plan = [('A', 100.0, 5.0), ('C', 100.0, 30.0)] if tier == 'quick' else [('A', 100.0, 5.0), ('C', 100.0, 30.0), ('B', 60.0, -8.0), ('A', 30.0, 12.0), ('A', 0.5, 3.0)]
     for (c, step, rel) in plan:
         rmax = K * step / 2 * 0.9
@@ -195,7 +195,7 @@ def _cfg_vfire(tier):
          engine_opts={'div_check': False, 'nl_axioms_in_feasibility': False},
          must_reach=['check:vacuum_rows_on_parabola_within_discretisation_term', 'altitude_excursion_over_30ft'],
          bounds='the real Calculator.fire with the real Vacuum atmosphere on carriers A (5 deg), C (30 deg) [thorough: + B downhill, finer A, default step] with SYMBOLIC range and record step: '
-                'every row (interpolated rows are terms in the request) vs the closed-form parabola under the configured gravity; horizon K <= 12 / 40 steps; altitude excursion > 30 ft',
+                'every row (interpolated rows are terms in the request) vs the closed-form parabola under the configured gravity; horizon K <= 12 / 24 steps; altitude excursion > 30 ft',
          assumptions=['tolerance = the exact discretisation term of C01.vacuum bounded by |g|*(step/2)*t/2 plus the chord error of the linear row interpolation (g*dt^2/8) plus 1e-9'])
 def c01_vacuum_fire(ctx, carrier, step_ft, relative_deg, rlo, rhi, wind='none'):
     import math
@@ -228,7 +228,7 @@ def c01_vacuum_fire(ctx, carrier, step_ft, relative_deg, rlo, rhi, wind='none'):
 
 
 def _cfg_drag_loop(tier):
-    K = 12 if tier == 'quick' else 40
+    K = 12 if tier == 'quick' else 24
     plan = [('F', 20.0, dict(relative_deg=-80.0), 8000.0, 'none'), ('A', 100.0, dict(), 0.0, 'two'), ('D', 20.0, dict(relative_deg=60.0), 0.0, 'head')]
     return [{'carrier': c, 'step_ft': s, 'kw': kw, 'altitude_ft': alt, 'wind': w, 'K': K} for (c, s, kw, alt, w) in plan]
 
